@@ -11,6 +11,7 @@ import SwimVerif.Proofs.Envelope
 import SwimVerif.Proofs.Routing
 import SwimVerif.Proofs.MultiReader
 import SwimVerif.Proofs.MultiReaderReady
+import SwimVerif.Proofs.MultiReaderPending
 
 set_option linter.unusedSimpArgs false
 namespace SwimVerif.C11
@@ -126,26 +127,21 @@ theorem C11_leading_space_not_preserved :
 
 /-! ### the reader on frames that the writer does not produce -/
 
-/-- Full statement (false of the current code, see `C11_reader_never_panics_fails`). -/
-def C11_reader_never_panics : Prop := ∀ (frame : Str) (c : Cause), peel frame ≠ .panic c
+/-- **The reader never panics**, whatever the frame: the two panic paths that existed (FC11-1: `finish()` on
+`Incomplete` in `parse_text_token` for an empty node/lane value, fixed by 15ca393; F16: `char::try_from(..).unwrap()`
+on a surrogate escape, fixed by b1a4cde) are closed in the code. The two facts about the code's shape are the
+generated flags, re-read from the sources on every run: if either path is reopened this theorem stops building and
+the monitors report `reader-panic-*` / `task-panic-*`. -/
+theorem C11_reader_never_panics : ∀ (frame : Str) (c : Cause), peel frame ≠ .panic c :=
+  fun frame c => peel_no_panic (by decide) (by decide) frame c
 
-/-- Witness FC11-1: an empty `node` (or `lane`) value makes `parse_text_token` hit `Incomplete`, on which
-`finish()` panics — as long as the code has that shape (`textTokenIncompletePanics`, re-read from the source). -/
-theorem C11_reader_never_panics_fails (h : textTokenIncompletePanics = true) : ¬ C11_reader_never_panics := by
-  intro hall
-  have w : textTokenIncompletePanics = true →
-      peel "@event(node:,lane:a)".toList = .panic .finishIncomplete := by decide
-  exact hall _ _ (w h)
+/-- The former witnesses are now ordinary rejections. -/
+theorem C11_former_panic_witnesses_rejected :
+    peel "@event(node:,lane:a)".toList = .err ∧ peel "@link(node:a,lane:)".toList = .err ∧
+    peel "@event(node:\"\\ud800\",lane:a)".toList = .err := by decide
 
-/-- Witness F16 (C09's finding, reachable from the socket): a `\uD800` escape in a name. -/
-theorem C11_reader_never_panics_fails_surrogate (h : unescSurrogatePanics = true) : ¬ C11_reader_never_panics := by
-  intro hall
-  have w : unescSurrogatePanics = true →
-      peel "@event(node:\"\\ud800\",lane:a)".toList = .panic .charTryFrom := by decide
-  exact hall _ _ (w h)
-
-/-- What does hold: no frame produced by the writer panics the reader or is rejected by it. -/
-theorem C11_reader_never_panics_partial (m : Msg) : (∀ c, peel (encode m) ≠ .panic c) ∧ peel (encode m) ≠ .err := by
+/-- Every frame produced by the writer is accepted by the reader. -/
+theorem C11_written_frames_accepted (m : Msg) : peel (encode m) ≠ .err ∧ peel (encode m) ≠ .unsup := by
   rw [C11_read_write_any_body]; exact ⟨by simp, by simp⟩
 
 /-! ### non-vacuity: the hypotheses are met by awkward concrete names -/
@@ -320,22 +316,13 @@ theorem C11_only_input_delivers (st : St) (op : Routing.Op) (h : ∀ f, op ≠ .
     · exact hstop _ (by simp [isDelivery])
     · simp
 
-/-- Full statement "content unchanged" for the body (false of the current code: `C11_body_unchanged_fails`). -/
-def C11_body_unchanged : Prop := ∀ (k : Kind) (b : Str), isRequest k = false → deliveredBody k b = expectedBody k b
-
-/-- Witness FC11-2: `interpret_envelope` keeps the body of an `unlinked` envelope only when it is empty
-(`if body.is_empty() { Some(*body) } else { None }`), so `@unlinked(node:n,lane:l)@laneNotFound` reaches the
-downlink as `Unlinked(None)`. -/
-theorem C11_body_unchanged_fails (hc : Generated.Env.unlinkedBodyDropped = true) : ¬ C11_body_unchanged := by
-  intro h
-  have := h .unlinked "@laneNotFound".toList rfl
-  simp [deliveredBody, expectedBody, hc] at this
-
-/-- What holds: every notification other than an `unlinked` with a non-empty body arrives with its body. -/
-theorem C11_body_unchanged_partial (k : Kind) (b : Str) (hk : isRequest k = false) (h : k ≠ .unlinked ∨ b = []) :
-    deliveredBody k b = expectedBody k b := by
+/-- **Content unchanged**: the body a downlink receives is the body that was on the wire (absent when empty for
+`unlinked`), for every notification kind. (FC11-2, the inverted test in `interpret_envelope`, fixed by fffb427; the
+shape of that expression is the generated flag `unlinkedBodyDropped`: if the test is inverted again this theorem stops
+building and the routing monitor reports `unlinked-body-dropped`.) -/
+theorem C11_body_unchanged (k : Kind) (b : Str) (hk : isRequest k = false) : deliveredBody k b = expectedBody k b := by
+  have hf : Generated.Env.unlinkedBodyDropped = false := by decide
   cases k <;> simp_all [deliveredBody, expectedBody, isRequest]
-  all_goals (split <;> simp_all)
 
 /-- **Writer → socket → reader → routing**: a well-formed notification written by the peer's `ReconEncoder` reaches
 exactly the open downlinks attached to its own node and lane. -/
@@ -352,6 +339,15 @@ theorem C11_written_notification_routed (ops : List Routing.Op) (m : Msg) (hwf :
   intro e he
   obtain ⟨id, h1, _, h3⟩ := this.1 e he
   exact ⟨id, h1, h3⟩
+
+/-- … and what they receive is the body the peer wrote (absent when empty for `unlinked`). -/
+theorem C11_written_notification_content (m : Msg) (hk : isRequest m.kind = false) :
+    deliveredBody m.kind (if hasBody m.kind then m.body else []) =
+      expectedBody m.kind (if hasBody m.kind then m.body else []) :=
+  C11_body_unchanged _ _ hk
+
+example : (step (reach [.attach 0 "/n".toList "l".toList]) (.input "@unlinked(node:\"/n\",lane:l)@laneNotFound".toList)).2 =
+    [.toDl 0 .unlinked "/n".toList "l".toList (some "@laneNotFound".toList)] := by decide
 
 /-! non-vacuity: two downlinks on the same node but different lanes, one detached; an agent resolved on demand -/
 
@@ -457,13 +453,21 @@ theorem C11_push_wakes_parked (ops : List MultiReader.Op) (k s x : Nat)
   rw [getD_modify_list, if_pos ⟨rfl, by simpa [setSource] using hblt⟩]
   exact (mem_fInsert _ _ _).mpr (Or.inl rfl)
 
-/-- (open) When `poll_next` answers `Pending`, no ready bit is left anywhere, hence every registered stream is
-parked: needs the termination argument of the bucket walk of `get_next_stream` (it returns `None` only after a
-full cycle). Sampled by the monitor (`pending-though-item-available`, `lost-wakeup-on-push`). -/
-def C11_pending_means_all_parked_open : Prop :=
-  ∀ (ops : List MultiReader.Op), (MultiReader.poll (mreach ops)).2 = .pending →
+/-- **`Pending` means everybody is parked**: when `poll_next` answers `Pending`, no ready bit is left in any bucket
+nor in the local or queue flags (the bucket walk of `get_next_stream` gives up only after a full cycle over empty
+buckets; the loop of `poll_next` consumes a flag per iteration), hence every registered stream is empty, open and
+holds the waker that sets its bit and wakes the task — no lost wake-up. -/
+theorem C11_pending_means_all_parked (ops : List MultiReader.Op)
+    (hp : (MultiReader.poll (mreach ops)).2 = .pending) :
+    NoFlags (MultiReader.poll (mreach ops)).1 ∧
     ∀ k s, (MultiReader.poll (mreach ops)).1.entries[k]? = some (Entry.occ s) →
-      parked (MultiReader.poll (mreach ops)).1 k s
+      parked (MultiReader.poll (mreach ops)).1 k s := by
+  have hinv : WF (mreach ops) ∧ Ready (mreach ops) none := run_inv MultiReader.init ops inv_init.1 inv_init.2
+  generalize mreach ops = st at *
+  unfold MultiReader.poll at *
+  have hn := pollNext_pending (flagCount st + 2) st hinv.1 (by omega) hp
+  have hr := (pollNext_inv (flagCount st + 2) st hinv.1 hinv.2).2
+  exact ⟨hn, fun k s hk => all_parked_of_noFlags _ hr hn k s hk⟩
 
 /-- (open) Fairness: a stream whose bit is set is polled within two rounds over the ready streams. -/
 def C11_fair_within_2n_polls_open : Prop :=
@@ -473,6 +477,7 @@ def C11_fair_within_2n_polls_open : Prop :=
       ∃ x, (s, x) ∈ (MultiReader.run (mreach ops) (List.replicate n .poll)).delivered ∧
            (s, x) ∉ (mreach ops).delivered
 
+example : (MultiReader.poll (mreach [.add, .add, .push 1 5, .poll])).2 = .pending := by decide
 example : parked (mreach [.add, .poll]) 0 0 := by unfold parked; decide
 example : flagged (mreach [.add, .poll, .push 0 7]) 0 0 := by unfold flagged; decide
 example : (MultiReader.step (mreach [.add, .poll]) (.push 0 7)).2.2 = 1 := by decide
